@@ -22,7 +22,8 @@ Definition val_ok (c : c2_case) (e : gty * value * json * value) : bool :=
   let env := env_of (c2_prog c) nodes (c2_enums c) in
   let sh := shape_of (c2_prog c) nodes (c2_enums c) 12 false t in
   let fuel := 2 * json_depth doc + 6 in
-  match encode env fuel sh v with
+  has_shape env fuel sh v   (* the premise of C02_typed_values_round_trip *)
+  && match encode env fuel sh v with
   | Some j => json_eqb j doc
   | None => false end
   && match decode env fuel sh doc with
